@@ -62,6 +62,184 @@ type chainHandler struct {
 	ret  byte // '-' 'N' 'W' 'B'
 	code int
 	blen int
+	// sig: the Go signature that delivers the return effect (`<ret>/<sig>` on the H line); "" = the default carrier
+	// (func(Context), func(Context) string, func(Context) (int, string)).  See chainSigOK.
+	sig string
+}
+
+// ---------------------------------------------------------------------------- signatures
+//
+// A handler's return effect (nothing / a body / a status and a body) can be delivered by many Go function types: the
+// parameter list decides HOW the framework invokes the function (validateAndWrapHandler special-cases some complete
+// signatures with a FastInvoker, everything else goes through reflect), the result list decides which row of the
+// return-value table renders it.  sig = <params><results>:
+//     params   c (Context) | 0 () | w (http.ResponseWriter, *http.Request) | q (Context, *http.Request) | r (*http.Request)
+//     results  - | s string | b []byte | e error | is (int, string) | ib (int, []byte) | ie (int, error)
+//              | se (string, error) | be ([]byte, error)
+// and the values returned are the ones that make the documented table produce the effect:
+//     N            "" / nil / nil error / ("", nil) / (nil, nil)
+//     B<len>       the body as string / []byte, the error (if any) nil
+//     W<code>:<len> (code, body) for is / ib; for ie: (code, nil) when len = 0, else (code, error whose text is the body);
+//                  for e / se / be only W500:<len>0>: a non-nil error whose text is the body (the table answers 500 + text)
+var chainSigParams = "c0wqr"
+var chainSigResults = []string{"-", "s", "b", "e", "is", "ib", "ie", "se", "be"}
+
+func chainSigOK(h *chainHandler) bool {
+	if h.sig == "" {
+		return true
+	}
+	if len(h.sig) < 2 || !strings.ContainsRune(chainSigParams, rune(h.sig[0])) {
+		return false
+	}
+	res := h.sig[1:]
+	in := func(xs ...string) bool {
+		for _, x := range xs {
+			if x == res {
+				return true
+			}
+		}
+		return false
+	}
+	switch h.ret {
+	case '-':
+		return res == "-"
+	case 'N':
+		return in("s", "b", "e", "se", "be")
+	case 'B':
+		return in("s", "b", "se", "be")
+	case 'W':
+		return in("is", "ib", "ie") || (in("e", "se", "be") && h.code == http.StatusInternalServerError && h.blen > 0)
+	}
+	return false
+}
+
+// error values whose text is n times 'x', of several concrete kinds (struct, pointer, string, byte slice)
+type chainRetErr struct{ n int }
+
+func (e chainRetErr) Error() string { return strings.Repeat("x", e.n) }
+
+type chainRetPtrErr struct{ n int }
+
+func (e *chainRetPtrErr) Error() string { return strings.Repeat("x", e.n) }
+
+type chainRetStrErr string // the `const ErrX = constError("…")` idiom; the text is NOT the plain conversion
+
+func (e chainRetStrErr) Error() string { return strings.Repeat("x", len(e)-3) }
+
+type chainRetBytesErr []byte
+
+func (e chainRetBytesErr) Error() string { return strings.Repeat("x", len(e)-3) }
+
+func chainRetError(i, n int) error {
+	switch (i + n) % 4 {
+	case 1:
+		return &chainRetPtrErr{n}
+	case 2:
+		return chainRetStrErr("E: " + strings.Repeat("y", n))
+	case 3:
+		return chainRetBytesErr("E: " + strings.Repeat("y", n))
+	}
+	return chainRetErr{n}
+}
+
+func chainWith0(p byte, ctx func() flamego.Context, body func(flamego.Context)) flamego.Handler {
+	switch p {
+	case '0':
+		return func() { body(ctx()) }
+	case 'w':
+		return func(http.ResponseWriter, *http.Request) { body(ctx()) }
+	case 'q':
+		return func(c flamego.Context, _ *http.Request) { body(c) }
+	case 'r':
+		return func(*http.Request) { body(ctx()) }
+	}
+	return func(c flamego.Context) { body(c) }
+}
+
+func chainWith1[R any](p byte, ctx func() flamego.Context, body func(flamego.Context) R) flamego.Handler {
+	switch p {
+	case '0':
+		return func() R { return body(ctx()) }
+	case 'w':
+		return func(http.ResponseWriter, *http.Request) R { return body(ctx()) }
+	case 'q':
+		return func(c flamego.Context, _ *http.Request) R { return body(c) }
+	case 'r':
+		return func(*http.Request) R { return body(ctx()) }
+	}
+	return func(c flamego.Context) R { return body(c) }
+}
+
+func chainWith2[R1, R2 any](p byte, ctx func() flamego.Context, body func(flamego.Context) (R1, R2)) flamego.Handler {
+	switch p {
+	case '0':
+		return func() (R1, R2) { return body(ctx()) }
+	case 'w':
+		return func(http.ResponseWriter, *http.Request) (R1, R2) { return body(ctx()) }
+	case 'q':
+		return func(c flamego.Context, _ *http.Request) (R1, R2) { return body(c) }
+	case 'r':
+		return func(*http.Request) (R1, R2) { return body(ctx()) }
+	}
+	return func(c flamego.Context) (R1, R2) { return body(c) }
+}
+
+// sigHandler builds the Go func of signature h.sig for position i (chainSigOK holds).
+func (h *chainHandler) sigHandler(i int, cur **chainRun) flamego.Handler {
+	p, res := h.sig[0], h.sig[1:]
+	ctx := func() flamego.Context { return (*cur).ctx }
+	str := func() string {
+		if h.ret == 'N' {
+			return ""
+		}
+		return strings.Repeat("x", h.blen)
+	}
+	byt := func() []byte {
+		if h.ret == 'N' {
+			return nil
+		}
+		return []byte(strings.Repeat("x", h.blen))
+	}
+	errv := func() error { // the error of e / se / be / ie: non-nil only for W<code>:<len>0>
+		if h.ret == 'W' && h.blen > 0 {
+			return chainRetError(i, h.blen)
+		}
+		return nil
+	}
+	failing := h.ret == 'W' // for se / be: the first value is then one the table must ignore
+	switch res {
+	case "-":
+		return chainWith0(p, ctx, func(c flamego.Context) { h.interpret(i, cur, c) })
+	case "s":
+		return chainWith1(p, ctx, func(c flamego.Context) string { h.interpret(i, cur, c); return str() })
+	case "b":
+		return chainWith1(p, ctx, func(c flamego.Context) []byte { h.interpret(i, cur, c); return byt() })
+	case "e":
+		return chainWith1(p, ctx, func(c flamego.Context) error { h.interpret(i, cur, c); return errv() })
+	case "is":
+		return chainWith2(p, ctx, func(c flamego.Context) (int, string) { h.interpret(i, cur, c); return h.code, str() })
+	case "ib":
+		return chainWith2(p, ctx, func(c flamego.Context) (int, []byte) { h.interpret(i, cur, c); return h.code, byt() })
+	case "ie":
+		return chainWith2(p, ctx, func(c flamego.Context) (int, error) { h.interpret(i, cur, c); return h.code, errv() })
+	case "se":
+		return chainWith2(p, ctx, func(c flamego.Context) (string, error) {
+			h.interpret(i, cur, c)
+			if failing {
+				return "xx", errv()
+			}
+			return str(), nil
+		})
+	case "be":
+		return chainWith2(p, ctx, func(c flamego.Context) ([]byte, error) {
+			h.interpret(i, cur, c)
+			if failing {
+				return []byte("xx"), errv()
+			}
+			return byt(), nil
+		})
+	}
+	panic("chain: bad signature " + h.sig)
 }
 
 type chainErr struct{}
@@ -154,14 +332,21 @@ func parseChainHandler(l []string) (chainHandler, bool) {
 			}
 		}
 	}
+	rs := l[3]
+	if k := strings.IndexByte(rs, '/'); k >= 0 {
+		rs, h.sig = rs[:k], rs[k+1:]
+		if h.sig == "" {
+			return h, false
+		}
+	}
 	switch {
-	case l[3] == "-":
-	case l[3] == "N":
+	case rs == "-":
+	case rs == "N":
 		h.ret = 'N'
-	case strings.HasPrefix(l[3], "B"):
-		h.ret, h.blen = 'B', atoi(l[3][1:])
-	case strings.HasPrefix(l[3], "W"):
-		p := strings.Split(l[3][1:], ":")
+	case strings.HasPrefix(rs, "B"):
+		h.ret, h.blen = 'B', atoi(rs[1:])
+	case strings.HasPrefix(rs, "W"):
+		p := strings.Split(rs[1:], ":")
 		if len(p) != 2 {
 			return h, false
 		}
@@ -169,13 +354,14 @@ func parseChainHandler(l []string) (chainHandler, bool) {
 	default:
 		return h, false
 	}
-	return h, true
+	return h, chainSigOK(&h)
 }
 
 // per-request recording; a fresh one is installed before every ServeHTTP
 type chainRun struct {
 	events []string
 	cancel gocontext.CancelFunc
+	ctx    flamego.Context // the request's Context (for handlers whose parameter list has none), set by the harness's first middleware
 }
 
 // interpret runs the actions of handler i against the real Context.
@@ -310,6 +496,9 @@ func (h *chainHandler) handler(i int, cur **chainRun) flamego.Handler {
 		return flamego.Recovery()
 	case 'u':
 		return func(*chainUnmapped) {}
+	}
+	if h.sig != "" {
+		return h.sigHandler(i, cur)
 	}
 	switch h.ret {
 	case 'N':
@@ -488,6 +677,7 @@ func execChain(args []string, lines [][]string) []string {
 				c.ResponseWriter().WriteHeader(http.StatusNoContent) // the nested chain stops here
 				return
 			}
+			(*cur).ctx = c
 			f.ServeHTTP(httptest.NewRecorder(), httptest.NewRequest(http.MethodGet, probe, nil))
 		})
 		for t := 1 + nmw; t&(t-1) == 0; t++ { // single-element appends: full exactly at the powers of two
@@ -683,6 +873,33 @@ var chainPoolC15 = []string{
 
 var chainCodes = []int{200, 201, 204, 302, 404, 500, 101, 103, 100}
 
+// every signature that can deliver the return effect `ret` (chainSigOK)
+func chainSigsFor(ret string) []string {
+	var out []string
+	for _, p := range chainSigParams {
+		for _, res := range chainSigResults {
+			sig := string(p) + res
+			if _, ok := parseChainHandler([]string{"H", "p", "-", ret + "/" + sig}); ok {
+				out = append(out, sig)
+			}
+		}
+	}
+	return out
+}
+
+// the rows of the return-value table each result list can produce (small scope)
+var chainSigRows = map[string][]string{
+	"-":  {"-"},
+	"s":  {"N", "B2"},
+	"b":  {"N", "B3"},
+	"e":  {"N", "W500:2"},
+	"is": {"W201:0", "W202:1"},
+	"ib": {"W203:0", "W404:2"},
+	"ie": {"W204:0", "W404:1", "W500:2"},
+	"se": {"N", "B1", "W500:3"},
+	"be": {"N", "B2", "W500:1"},
+}
+
 func randChainProg(r *rand.Rand, hooks bool, panicky bool) string {
 	n := r.Intn(6)
 	var acts []string
@@ -727,6 +944,11 @@ func randChainProg(r *rand.Rand, hooks bool, panicky bool) string {
 		ret = fmt.Sprintf("W%d:%d", chainCodes[r.Intn(len(chainCodes))], r.Intn(3))
 	case k == 3:
 		ret = fmt.Sprintf("B%d", r.Intn(4))
+	}
+	if !panicky && r.Intn(2) == 0 {
+		// the same effect through another Go signature (parameter list × result list)
+		sigs := chainSigsFor(ret)
+		ret += "/" + sigs[r.Intn(len(sigs))]
 	}
 	return fmt.Sprintf("p %s %s", a, ret)
 }
@@ -820,6 +1042,26 @@ func genChain(r *rand.Rand, tier string, emit Emit, c15 bool) {
 		}
 	}
 
+	// signatures, exhaustive: every parameter list × every result list × every row of the return-value table that result
+	// list can produce, the handler first / in the middle (inside a Next()) / last of a short stack, silent or calling
+	// Next() itself before it returns — whether the chain goes on after a handler depends on what its results made the
+	// return handler write, whatever way the framework invoked the function
+	if !c15 {
+		for _, p := range chainSigParams {
+			for _, res := range chainSigResults {
+				for _, row := range chainSigRows[res] {
+					for _, acts := range []string{"-", "n"} {
+						x := fmt.Sprintf("p %s %s/%c%s", acts, row, p, res)
+						for _, seq := range [][]string{{x, "p - -"}, {"p n -", x, "p b2 -"}, {"p - -", x}} {
+							dev, lay := next(len(seq))
+							emitChainM(emit, dev, lay, seq, 1, nextMethod())
+						}
+					}
+				}
+			}
+		}
+	}
+
 	// HEAD, exhaustive to depth 3 over the handlers that answer without an explicit status
 	{
 		var rec func(seq []string)
@@ -873,7 +1115,8 @@ func genChain(r *rand.Rand, tier string, emit Emit, c15 bool) {
 	}
 
 	// malformed stream: the executor and the driver must agree on rejecting these too
-	for _, bad := range [][]string{{"p n"}, {"p x9 -"}, {"q"}, {"p n W1"}} {
+	for _, bad := range [][]string{{"p n"}, {"p x9 -"}, {"q"}, {"p n W1"},
+		{"p - N/c-"}, {"p - W404:1/ce"}, {"p - W500:0/0se"}, {"p - -/zs"}, {"p - B1/cs/"}, {"p - B1/"}} {
 		emitChain(emit, 0, chainLayout{0, 0, 1, 0}, bad, 1)
 	}
 	emit("NEW chain 0 1 0 1 0")
